@@ -65,3 +65,25 @@ Fixpoint find_idx_from {A} (f : A -> bool) (l : list A) (i : N) : list N :=
   | x :: r => if f x then i :: find_idx_from f r (i + 1) else find_idx_from f r (i + 1)
   end.
 Definition find_idx {A} (f : A -> bool) (l : list A) : list N := find_idx_from f l 0.
+
+(* ---- socket addresses ---- *)
+Record addr := mkAddr { a_v6 : bool; a_ip : N; a_port : N }.
+
+Definition addr_eqb (a b : addr) : bool :=
+  Bool.eqb (a_v6 a) (a_v6 b) && (a_ip a =? a_ip b) && (a_port a =? a_port b).
+
+Lemma addr_eqb_eq a b : addr_eqb a b = true <-> a = b.
+Proof.
+  destruct a as [f1 i1 p1], b as [f2 i2 p2]. unfold addr_eqb. cbn.
+  rewrite !andb_true_iff, Bool.eqb_true_iff, !N.eqb_eq. split.
+  - intros [[-> ->] ->]. reflexivity.
+  - intros E. inversion E. auto.
+Qed.
+
+Definition same_family (a b : addr) : bool := Bool.eqb (a_v6 a) (a_v6 b).
+
+(* time: nanoseconds; Instant - Instant saturates at zero (Rust >= 1.60) *)
+Open Scope Z_scope.
+Definition time := Z.
+Definition dur_since (now t : Z) : Z := Z.max 0 (now - t).
+Close Scope Z_scope.
